@@ -479,6 +479,55 @@ type trackerLike interface {
 	Associate(string, string) *state.ChanPrivs
 	Dissociate(string, string)
 	Wipe()
+	String() string
+}
+
+// String gives the model's state in the layout of the tracker's own dump, put
+// together from the public snapshot types' String methods.
+func (m *mTracker) String() string {
+	str := "GoIRC Channels\n--------------\n\n"
+	for _, c := range sortedKeys(m.chans) {
+		str += m.chanSnap(c).String() + "\n"
+	}
+	str += "GoIRC NickNames\n---------------\n\n"
+	for _, n := range sortedKeys(m.nicks) {
+		if n != m.me {
+			str += m.nickSnap(n).String() + "\n"
+		}
+	}
+	return str
+}
+
+// canonDump orders the blocks of a tracker dump, and the member lines inside
+// each block (the tracker prints them in map order).
+func canonDump(d string) string {
+	var blocks [][]string
+	for _, ln := range strings.Split(d, "\n") {
+		switch {
+		case strings.HasPrefix(ln, "Channel: ") || strings.HasPrefix(ln, "Nick: "):
+			blocks = append(blocks, []string{ln})
+		case ln == "" || strings.HasPrefix(ln, "GoIRC ") || strings.HasPrefix(ln, "---"):
+		case len(blocks) > 0:
+			blocks[len(blocks)-1] = append(blocks[len(blocks)-1], ln)
+		default:
+			blocks = append(blocks, []string{"?" + ln})
+		}
+	}
+	var out []string
+	for _, b := range blocks {
+		var head, mem []string
+		for _, ln := range b {
+			if strings.HasPrefix(ln, "\t\t") {
+				mem = append(mem, ln)
+			} else {
+				head = append(head, ln)
+			}
+		}
+		sort.Strings(mem)
+		out = append(out, strings.Join(append(head, mem...), "|"))
+	}
+	sort.Strings(out)
+	return strings.Join(out, "\n")
 }
 
 func applyOp(t trackerLike, o tOp) (string, interface{}) {
@@ -532,6 +581,8 @@ func applyOp(t trackerLike, o tOp) (string, interface{}) {
 	case "Wipe":
 		t.Wipe()
 		return "-", nil
+	case "String":
+		return canonDump(t.String()), nil
 	}
 	panic("unknown op " + o.Kind)
 }
